@@ -12,4 +12,16 @@ package reader
 //@   requires !isnil(acc) && acc.g_mw == 0 && !acc.g_auth
 //@   modifies acc.g_mw, acc.g_auth
 //@   at BasicAuthMiddleware with-the-configured-credentials: arg0 == config.Cloki.Setting.AUTH_SETTINGS.BASIC.Username && arg1 == config.Cloki.Setting.AUTH_SETTINGS.BASIC.Password
-//@   check auth-first: ownHttpServer && config.Cloki.Setting.AUTH_SETTINGS.BASIC.Username != "" && config.Cloki.Setting.AUTH_SETTINGS.BASIC.Password != "" ==> acc.g_auth
+//@   ensures auth-first: ownHttpServer && config.Cloki.Setting.AUTH_SETTINGS.BASIC.Username != "" && config.Cloki.Setting.AUTH_SETTINGS.BASIC.Password != "" ==> acc.g_auth
+
+// The stand-alone reader starts to serve only after the middlewares are installed on
+// its router (http.Serve never returns: anything placed after it never runs).
+// Registering the routes installs no middleware (frame only, by reading).
+//@ func performV1APIRouting
+//@   modifies nothing
+//@ func httpStart
+//@   modifies nothing
+//@ func configureAsHTTPServer [C20]
+//@   flag checks=-index,-assert
+//@   requires !isnil(acc) && acc.g_mw == 0 && !acc.g_auth
+//@   at httpStart$ credential-check-installed-before-serving: config.Cloki.Setting.AUTH_SETTINGS.BASIC.Username != "" && config.Cloki.Setting.AUTH_SETTINGS.BASIC.Password != "" ==> acc.g_auth
